@@ -71,85 +71,150 @@ def run(ctx):
     fl = bs.afl
     cfg = fl.cfg
     copies = bs.copy_sites()
-    if not copies:
+    if not copies and not bs.batched:
         ctx.missing('C02.R2', 'apply -> copy_atomic')
-    # ---- R2
-    for cb, ct, src, dst in copies:
-        arms = bs.arm_of(cb)
-        if dst[0] == 'derived':
-            # which side the copy lands on, by role not by variable name: the loser's content is the source of both
-            # preservation copies, so "destination root == source root" is the loser's side, otherwise the winner's
-            dl, sl = root_user_local(fl, b_arg(fl, ct, 1, 0)), root_user_local(fl, b_arg(fl, ct, 0, 0))
-            same_side = dl is not None and dl == sl
-            name = 'lose_root' if same_side else 'win_root'
-            key = 'apply:%s:conflict-copy@%s' % ('+'.join(arms), name)
-            guarded = False
-            looked = set()       # which replica's scan was consulted ('a' / 'b'), or 'fs' for a look at the file system
-            dst_sig = derived_sig(fl, dst[2])
-            searched = set()
-            for o in dst[2]:
-                if o.kind == 'call' and o.key == 'std::path::Path::join':
-                    searched |= {str(x.key).split('::')[-1] for x in call_arg_origins(fl, o.bb, 1) if x.kind == 'call' and str(x.key).startswith('std::iter::Iterator::')}
-            if not searched and chosen_by_bounded_search(fl, ct['args'][1]):
-                searched = {'bounded search with a fallback name'}
-            if searched:
-                # `(0..).map(name).find(|c| free(c))`: the looks happen inside an iterator search that is not unfolded here
-                ctx.undecided('C02.R2', 'apply: the conflict-copy name is the result of an iterator search (%s): which scans it consults before accepting a name is not decided' % ', '.join(sorted(searched)))
-                continue
-            for lb, lt in fl.calls(lambda c: c in LOOKERS):
-                args_o = set()
-                for a in lt['args']:
-                    args_o |= fl.origins(a, mut_calls=True)
-                if derived_sig(fl, args_o) & dst_sig:
-                    this = False
-                    oc = fl.outcomes(lb)
-                    if any(cfg.edges_guard(e, cb) for e in oc.values() if e):
-                        guarded = this = True
-                    # the look may be consumed by an Option/Result predicate (`.is_some_and(..)`, `.is_none()`, `.map_or(..)`):
-                    # then the predicate's edges are the evidence
-                    for ub, ut in fl.calls(lambda c: c.split('::')[-1] in ('is_some_and', 'is_some', 'is_none', 'is_none_or', 'map_or', 'is_ok', 'is_err', 'is_ok_and')):
-                        if any(o.kind == 'call' and o.bb == lb for o in fl.origins(ut['args'][0])):
-                            oc2 = fl.outcomes(ub)
-                            if any(cfg.edges_guard(e, cb) for e in oc2.values() if e):
-                                guarded = this = True
-                    if this:
-                        m_o = fl.origins(lt['args'][0]) if lt['args'] else set()
-                        looked.add('a' if bs.is_param(m_o, 'a') else 'b' if bs.is_param(m_o, 'b') else 'fs')
-            # the copy lands on both replicas (one call per root): what is known about BOTH must be consulted - a look that
-            # asks the second scan only when the first does not list the name misses an edit made on the second side only
-            if guarded and 'fs' not in looked and looked != {'a', 'b'}:
+    BATCHED = ('apply stages its deliveries into a container and publishes them in a loop over it: which copy becomes visible before which is the '
+               'order that container iterates in - the per-call rules do not decide it')
+    if bs.batched:
+        ctx.undecided('C02.R3', BATCHED)
+    else:
+        # ---- R2
+        for cb, ct, src, dst in copies:
+            arms = bs.arm_of(cb)
+            if dst[0] == 'derived':
+                # which side the copy lands on, by role not by variable name: the loser's content is the source of both
+                # preservation copies, so "destination root == source root" is the loser's side, otherwise the winner's
+                dl, sl = root_user_local(fl, b_arg(fl, ct, 1, 0)), root_user_local(fl, b_arg(fl, ct, 0, 0))
+                same_side = dl is not None and dl == sl
+                name = 'lose_root' if same_side else 'win_root'
+                key = 'apply:%s:conflict-copy@%s' % ('+'.join(arms), name)
                 guarded = False
-            ctx.check(guarded, 'C02.R2', key, 'guarded by a look at the destination name on both replicas',
-                      'conflict-copy is written with copy_atomic without looking at what already lives at the derived name: '
-                      'an edited earlier conflict-copy with the same name is overwritten', term_loc(bs.apply, cb))
-        elif dst[0] == 'other':
-            ctx.bad('C02.R2', 'apply:%s:copy->unclassified' % '+'.join(arms),
-                    'copy_atomic destination is neither root.join(rel) nor a recognised derived name', term_loc(bs.apply, cb))
-    # ---- R3
-    both = [c for c in copies if 'BothChanged' in bs.arm_of(c[0])]
-    overwrites = [c for c in both if c[3][0] == 'live']
-    if not overwrites:
-        ctx.bad('C02.R3', 'apply:BothChanged:overwrite-exists', 'BothChanged arm does not write the winner onto the loser\'s path', loc(bs.apply, bs.apply.lo))
-    for cb, ct, src, dst in overwrites:
-        dsig = sig(dst[2])
-        pres = [c for c in both if c[3][0] == 'derived' and sig(c[2][2]) == dsig]
-        roots = {c[3][1] for c in pres}
-        # per replica: the overwrite lies behind the Ok edge of a preserving step on that replica (several alternative steps -
-        # a link with a copy as fall-back - count together: one of them has succeeded on every way to the overwrite)
-        groots = set()
-        for root in roots:
-            edges = set()
-            for c in pres:
-                if c[3][1] == root:
-                    edges |= fl.outcomes(c[0]).get('Ok', set())
-            if edges and cfg.edges_guard(edges, cb):
-                groots.add(root)
-        ctx.check(len(groots) >= 2, 'C02.R3', 'apply:BothChanged:preserve-before-overwrite',
-                  'overwrite guarded by Ok of loser copies on roots %s' % sorted(map(str, groots)),
-                  'the loser is overwritten before it was preserved on both sides (preserving copies that guard the overwrite: roots %s of %s)' % (
-                      sorted(map(str, groots)), sorted(map(str, roots))), term_loc(bs.apply, cb))
+                looked = set()       # which replica's scan was consulted ('a' / 'b'), or 'fs' for a look at the file system
+                dst_sig = derived_sig(fl, dst[2])
+                searched = set()
+                for o in dst[2]:
+                    if o.kind == 'call' and o.key == 'std::path::Path::join':
+                        searched |= {str(x.key).split('::')[-1] for x in call_arg_origins(fl, o.bb, 1) if x.kind == 'call' and str(x.key).startswith('std::iter::Iterator::')}
+                if not searched and chosen_by_bounded_search(fl, ct['args'][1]):
+                    searched = {'bounded search with a fallback name'}
+                if searched:
+                    # `(0..).map(name).find(|c| free(c))`: the looks happen inside an iterator search that is not unfolded here
+                    ctx.undecided('C02.R2', 'apply: the conflict-copy name is the result of an iterator search (%s): which scans it consults before accepting a name is not decided' % ', '.join(sorted(searched)))
+                    continue
+                for lb, lt in fl.calls(lambda c: c in LOOKERS):
+                    args_o = set()
+                    for a in lt['args']:
+                        args_o |= fl.origins(a, mut_calls=True)
+                    if derived_sig(fl, args_o) & dst_sig:
+                        this = False
+                        oc = fl.outcomes(lb)
+                        if any(cfg.edges_guard(e, cb) for e in oc.values() if e):
+                            guarded = this = True
+                        # the look may be consumed by an Option/Result predicate (`.is_some_and(..)`, `.is_none()`, `.map_or(..)`):
+                        # then the predicate's edges are the evidence
+                        for ub, ut in fl.calls(lambda c: c.split('::')[-1] in ('is_some_and', 'is_some', 'is_none', 'is_none_or', 'map_or', 'is_ok', 'is_err', 'is_ok_and')):
+                            if any(o.kind == 'call' and o.bb == lb for o in fl.origins(ut['args'][0])):
+                                oc2 = fl.outcomes(ub)
+                                if any(cfg.edges_guard(e, cb) for e in oc2.values() if e):
+                                    guarded = this = True
+                        if this:
+                            m_o = fl.origins(lt['args'][0]) if lt['args'] else set()
+                            looked.add('a' if bs.is_param(m_o, 'a') else 'b' if bs.is_param(m_o, 'b') else 'fs')
+                # the copy lands on both replicas (one call per root): what is known about BOTH must be consulted - a look that
+                # asks the second scan only when the first does not list the name misses an edit made on the second side only
+                if guarded and 'fs' not in looked and looked != {'a', 'b'}:
+                    guarded = False
+                ctx.check(guarded, 'C02.R2', key, 'guarded by a look at the destination name on both replicas',
+                          'conflict-copy is written with copy_atomic without looking at what already lives at the derived name: '
+                          'an edited earlier conflict-copy with the same name is overwritten', term_loc(bs.apply, cb))
+            elif dst[0] == 'other':
+                ctx.bad('C02.R2', 'apply:%s:copy->unclassified' % '+'.join(arms),
+                        'copy_atomic destination is neither root.join(rel) nor a recognised derived name', term_loc(bs.apply, cb))
+        # ---- R3
+        both = [c for c in copies if 'BothChanged' in bs.arm_of(c[0])]
+        overwrites = [c for c in both if c[3][0] == 'live']
+        if not overwrites:
+            ctx.bad('C02.R3', 'apply:BothChanged:overwrite-exists', 'BothChanged arm does not write the winner onto the loser\'s path', loc(bs.apply, bs.apply.lo))
+        for cb, ct, src, dst in overwrites:
+            dsig = sig(dst[2])
+            pres = [c for c in both if c[3][0] == 'derived' and sig(c[2][2]) == dsig]
+            roots = {c[3][1] for c in pres}
+            # per replica: the overwrite lies behind the Ok edge of a preserving step on that replica (several alternative steps -
+            # a link with a copy as fall-back - count together: one of them has succeeded on every way to the overwrite)
+            groots = set()
+            for root in roots:
+                edges = set()
+                for c in pres:
+                    if c[3][1] == root:
+                        edges |= fl.outcomes(c[0]).get('Ok', set())
+                if edges and cfg.edges_guard(edges, cb):
+                    groots.add(root)
+            if len(groots) < 2 and roots and len(roots) >= 2:
+                # the preserving copies are skipped on some path: under which test?  If every copy that is missing from the guard
+                # sits behind one edge of a test of a bool, the other edge is "nothing to stage again".  That can only be right when
+                # the test looked at what BOTH replicas hold now under the copy's name (this run's scans): the archive describes the
+                # end of the previous run.  A skip decided without both scans is reported; one that consults both is a statement
+                # about values (which comparison, of what) - not decided here.
+                skip_tests = []
+                for sb in cfg.reachable():
+                    st_ = bs.apply.blocks[sb]['term']
+                    if st_['k'] != 'switch' or st_['on']['k'] == 'const' or st_['on']['p']['proj'] or bs.apply.local_ty(st_['on']['p']['l']) != 'bool':
+                        continue
+                    for tv, tb in [(tv, tb) for tv, tb in st_['targets']] + [('otherwise', st_['otherwise'])]:
+                        e_ = {(sb, tb, tv)}
+                        if all(cfg.edges_guard(e_, c[0]) for c in pres) and cfg.can_reach(sb, cb) and not cfg.edges_guard(e_, cb):
+                            skip_tests.append((sb, st_))
+                if skip_tests:
+                    deps = set()
+                    name_sig = set()
+                    for c in pres:
+                        name_sig |= derived_sig(fl, c[3][2])
+                    for sb, st_ in skip_tests:
+                        work, seen_ = [st_['on']], set()
+                        # a bool built by control flow (`x == y && scans.iter().all(..)`) depends on the tests that pick its constant
+                        work += [t2['on'] for _, t2 in fl.control_tests(st_['on'])]
+                        while work and len(seen_) < 600:
+                            cur = work.pop()
+                            if cur['k'] == 'const':
+                                continue
+                            for o in fl.origins(cur, mut_calls=True):
+                                k_ = (o.kind, str(o.key), o.bb)
+                                if k_ in seen_:
+                                    continue
+                                seen_.add(k_)
+                                if o.kind in ('call', 'mutcall') and o.bb is not None:
+                                    targs_ = bs.apply.blocks[o.bb]['term'].get('args', [])
+                                    if str(o.key) in LOOKERS and len(targs_) >= 2:
+                                        # a look: which map, and is it asked about the copy's name?
+                                        key_o = fl.origins(targs_[1], mut_calls=True)
+                                        if derived_sig(fl, key_o) & name_sig:
+                                            for role_ in ('a', 'b'):
+                                                if bs.is_param(fl.origins(targs_[0]), role_):
+                                                    deps.add(bs.roles.get(role_))
+                                    work += [a for a in targs_ if a['k'] != 'const']
+                                if o.kind == 'agg' and o.bb is not None:
+                                    # an aggregate (the pair of scans, a struct, a closure with what it captured): its parts
+                                    for st2 in bs.apply.blocks[o.bb]['stmts']:
+                                        if st2['rv']['k'] == 'agg':
+                                            work += [a for a in st2['rv']['ops'] if a['k'] != 'const']
+                    scans_ = {bs.roles.get('a'), bs.roles.get('b')} - {None}
+                    if len(scans_) == 2 and scans_ <= deps:
+                        ctx.undecided('C02.R3', 'apply skips the preserving copies of a both-changed conflict under a test that consults both scans: that it holds only when both replicas already keep the loser under that name is not decided')
+                        continue
+                    ctx.bad('C02.R3', 'apply:BothChanged:preserve-skipped-without-both-scans',
+                            'the copies that preserve the loser are skipped under a test that does not ask both of this run\'s scans about the copy\'s name (scans asked: %s of %s): '
+                            'what an earlier run recorded says nothing about a copy the user has edited or removed since - the loser is overwritten with no copy left' % (
+                                sorted(deps), sorted(scans_)), term_loc(bs.apply, skip_tests[0][0]))
+                    continue
+            ctx.check(len(groots) >= 2, 'C02.R3', 'apply:BothChanged:preserve-before-overwrite',
+                      'overwrite guarded by Ok of loser copies on roots %s' % sorted(map(str, groots)),
+                      'the loser is overwritten before it was preserved on both sides (preserving copies that guard the overwrite: roots %s of %s)' % (
+                          sorted(map(str, groots)), sorted(map(str, roots))), term_loc(bs.apply, cb))
     # ---- R4
-    ctx.attempt(side_rules, ctx, bs, copies)
+    if bs.batched:
+        ctx.undecided('C02.R4', BATCHED)
+    else:
+        ctx.attempt(side_rules, ctx, bs, copies)
     # ---- R5
     ctx.attempt(archive_taint, ctx, bs)
     # ---- R6
